@@ -386,6 +386,13 @@ class Own(Interp):
         return super().key(v)
 
     # ------------------------------------------------------------------ calls
+    def call_repo(self, func, selfobj, args, kwargs, n, env, ctx):
+        r = super().call_repo(func, selfobj, args, kwargs, n, env, ctx)
+        if getattr(func, "cached", False) and r is not None and not (isinstance(r, OV) and r.labels == {IMM}):
+            # memoised: every call hands out the same object, which lives in module-level cache storage
+            return OV([("G", func.qname + " (memoised result)")], elems=r.elems if isinstance(r, OV) else None)
+        return r
+
     def h_call_opaque(self, fv, n, args, kwargs, env, ctx):
         # user callables are trusted not to mutate their arguments (DESIGN.md 1.4); result is theirs
         return FRESH
